@@ -411,9 +411,14 @@ Fixpoint order_loop (fr : list tbl) (order : option string) (acc : list (term * 
   end.
 
 (* ---- join ---------------------------------------------------------------------------------- *)
-(* base_tables = self._from + [self._update_table] + self._with *)
-Definition base_tables (fr : list tbl) (upd : option tbl) (w : list (string * term)) : list (option tbl) :=
-  map Some fr ++ [upd] ++ map (fun x => Some (Wq (fst x))) w.
+(* do_join:  base_tables = self._from + [self._update_table] + self._with.
+   [base_tables_code] is that list; [base_tables] is the part without the WITH queries.  The WITH entries are
+   AliasedQuery objects: JoinOn.validate does not judge AliasedQuery references (they are checked at render time), a
+   Table item is never equal to one, and the automatic alias does not count them -- so do_join's result does not
+   depend on them (lemma step_join_code_eq), and [step] uses the form that does not read _with. *)
+Definition base_tables (fr : list tbl) (upd : option tbl) : list (option tbl) := map Some fr ++ [upd].
+Definition base_tables_code (fr : list tbl) (upd : option tbl) (w : list (string * term)) : list (option tbl) :=
+  base_tables fr upd ++ map (fun x => Some (Wq (fst x))) w.
 
 (* JoinOn.validate: criterion_tables - (set(base_tables) | {join.item ...} | {self.item}) - {None} holds no Table /
    sub-query; references to WITH queries (AliasedQuery) are left to the render-time check _validate_with_references,
@@ -445,11 +450,12 @@ Fixpoint first_free_from (name : string) (rel : list string) (fuel : nat) (k : Z
   end.
 Definition first_free (name : string) (taken : list string) : Z :=
   let rel := filter (String.prefix name) taken in first_free_from name rel (S (List.length rel)) 2.
-Definition auto_alias (bt : list (option tbl)) (joins : list join) (item : tbl) : tbl :=
+(* bt: the list the membership test uses; tb: the sources whose names are taken (FROM, UPDATE target) *)
+Definition auto_alias (bt tb : list (option tbl)) (joins : list join) (item : tbl) : tbl :=
   match item with
   | Tab n None =>
       if omem (Some item) bt
-      then Tab n (Some (n ++ Z_to_string (first_free n (taken_names bt joins)))%string)
+      then Tab n (Some (n ++ Z_to_string (first_free n (taken_names tb joins)))%string)
       else item
   | _ => item
   end.
@@ -468,21 +474,26 @@ Definition retag (item item1 : tbl) (ft : option tbl) : option tbl :=
   | _, _ => ft
   end.
 
-Definition step_join (fr : list tbl) (upd : option tbl) (w : list (string * term)) (joins : list join) (cnt : Z)
+Definition step_join_bt (bt tb : list (option tbl)) (joins : list join) (cnt : Z)
            (item : tbl) (how : string) (spec : join_spec) : res (list join * Z) :=
   let '(item1, cnt1) := tag_item cnt item in
-  let bt := base_tables fr upd w in
   match spec with
   | JSOnNone => Err "JoinException"
   | JSOn crit collate =>
       if join_valid bt joins item1 (map (retag item item1) (find_tables crit))
-      then Ok (joins ++ [JOn (auto_alias bt joins item1) how crit collate], cnt1)
+      then Ok (joins ++ [JOn (auto_alias bt tb joins item1) how crit collate], cnt1)
       else Err "JoinException"
   | JSUsing names =>
       if is_nil names then Err "JoinException"
-      else Ok (joins ++ [JUsing (auto_alias bt joins item1) how names], cnt1)
-  | JSCross => Ok (joins ++ [JCross (auto_alias bt joins item1)], cnt1)
+      else Ok (joins ++ [JUsing (auto_alias bt tb joins item1) how names], cnt1)
+  | JSCross => Ok (joins ++ [JCross (auto_alias bt tb joins item1)], cnt1)
   end.
+(* the method body as written (reads _with) ... *)
+Definition step_join_code (fr : list tbl) (upd : option tbl) (w : list (string * term)) :=
+  step_join_bt (base_tables_code fr upd w) (base_tables fr upd).
+(* ... and the equal function that does not *)
+Definition step_join (fr : list tbl) (upd : option tbl) :=
+  step_join_bt (base_tables fr upd) (base_tables fr upd).
 
 (* ---- columns / insert ---------------------------------------------------------------------- *)
 Definition col_item_term (ins : option tbl) (i : col_item) : term :=
@@ -506,7 +517,7 @@ Definition step (s : qstate) (c : call) : res qstate :=
       bind (select_loop (q_from s) (q_selects s, q_select_star s, q_select_star_tables s) items)
            (fun r => Ok (set_select_star_tables (snd r) (set_select_star (snd (fst r)) (set_selects (fst (fst r)) s))))
   | CJoin item how spec =>
-      bind (step_join (q_from s) (q_update_table s) (q_with s) (q_joins s) (q_subquery_count s) item how spec)
+      bind (step_join (q_from s) (q_update_table s) (q_joins s) (q_subquery_count s) item how spec)
            (fun r => Ok (set_subquery_count (snd r) (set_joins (fst r) s)))
   | CWhere c =>
       if is_empty c then Ok s
@@ -585,7 +596,7 @@ Definition reads (k : kind) : list slot :=
   | KInto => [S_selects]
   | KUpdate => [S_selects]
   | KSelect => [S_from]
-  | KJoin => [S_from; S_update_table; S_with]
+  | KJoin => [S_from; S_update_table]
   | KWhere => [S_from; S_update_table; S_joins]
   | KPrewhere => [S_from; S_update_table; S_joins]
   | KGroupby => [S_from]
@@ -607,8 +618,7 @@ Definition special (k1 k2 : kind) : bool :=
   match k1, k2 with
   | KWhere, KPrewhere | KPrewhere, KWhere       (* both or into _foreign_table *)
   | KWhere, KJoin | KJoin, KWhere               (* _validate_table reads _joins *)
-  | KPrewhere, KJoin | KJoin, KPrewhere
-  | KWith, KJoin | KJoin, KWith => true         (* do_join's automatic alias reads _with: holds on the fragment only *)
+  | KPrewhere, KJoin | KJoin, KPrewhere => true
   | _, _ => false
   end.
 Definition footprint_table : bool :=
@@ -630,16 +640,6 @@ Definition equiv (a b : qstate) : Prop :=
 (* an arbitrary renderer that sees the flag only through with_namespace *)
 Definition render {T} (R : bool -> qstate -> T) (s : qstate) : T :=
   R (with_namespace_of s) (set_foreign_table false s).
-
-(* ---- the fragment: no WITH query added in the list has a name that starts with the name of an un-aliased table
-   joined in the list (such a name can be one of the candidates  <table><k>  of do_join's automatic alias) ---------- *)
-Definition compat (c1 c2 : call) : bool :=
-  match c1, c2 with
-  | CJoin (Tab m None) _ _, CWith name _ => negb (String.prefix m name)
-  | _, _ => true
-  end.
-Definition fragment (l : list call) : Prop := forall c1 c2, In c1 l -> In c2 l -> compat c1 c2 = true.
-Definition fragmentb (l : list call) : bool := forallb (fun c1 => forallb (compat c1) l) l.
 
 (* l2 is an interleaving of l1 that keeps the relative order of the calls of every kind *)
 Definition kfilter (k : kind) (l : list call) : list call := filter (fun c => kind_eqb (kind_of c) k) l.
